@@ -99,7 +99,10 @@ func (p *ResetProcessor) resolveReset(node *yaml.Node, path tree.Path) (*yaml.No
 				nodes = append(nodes, resolved)
 			}
 		}
-		node.Content = nodes
+		// the node may be an anchor that aliases refer to: it is left as it is, and visited again at each alias
+		resolved := *node
+		resolved.Content = nodes
+		return &resolved, nil
 	case yaml.MappingNode:
 		var key string
 		var nodes []*yaml.Node
@@ -116,7 +119,9 @@ func (p *ResetProcessor) resolveReset(node *yaml.Node, path tree.Path) (*yaml.No
 				}
 			}
 		}
-		node.Content = nodes
+		resolved := *node
+		resolved.Content = nodes
+		return &resolved, nil
 	}
 	return node, nil
 }
